@@ -46,6 +46,7 @@ let next_bool () = next () = "1"
 let rec times n f = if n <= 0 then [] else let x = f () in x :: times (n-1) f
 
 let pi_q = q_of_float (4.0 *. atan 1.0)
+let tau_q = q_of_float (8.0 *. atan 1.0)     (* math.tau = 2 * math.pi exactly (doubling a double is exact) *)
 let o_atan2 (y:q) (x:q) : q = q_of_float (Float.atan2 (float_of_q y) (float_of_q x))
 let o_asin (z:q) : q = q_of_float (Float.asin (Float.max (-1.0) (Float.min 1.0 (float_of_q z))))
 let o_norm (w:vec) : q =
@@ -66,6 +67,8 @@ let handle (line:string) : string =
       let r = if has_r then (let a = next_vec () in let b = next_vec () in let cc = next_vec () in
                              Some { r0 = a; r1 = b; r2 = cc }) else None in
       let d = next_q () in let h = next_q () in let v = next_q () in
+      (* the viewer's effective angles: the REQUESTED ones truncated by the model of OrientedPoint.__init__ *)
+      let (h, v) = truncate_angles tau_q pi_q (h, v) in
       let p = next_vec () in
       let nocc = next_int () in
       let occ = Array.of_list (times nocc (fun () ->
@@ -77,6 +80,10 @@ let handle (line:string) : string =
       let az = point_az pi_q o_atan2 o_norm mode r c p in
       let alt = point_alt o_asin o_norm mode r c p in
       Printf.sprintf "%s %s %s %s" (b2s res) (fl m) (fl az) (fl alt)
+  | "TRUNC" ->
+      let h = next_q () in let v = next_q () in
+      let (h', v') = truncate_angles tau_q pi_q (h, v) in
+      fl h' ^ " " ^ fl v'
   | "WIN" ->
       let h = next_q () in let v = next_q () in
       let ahead = next_bool () in let behind = next_bool () in
